@@ -69,3 +69,17 @@ package getsvc
 //@   requires [recovery_starts_at_the_failed_part_after_what_was_written] a1 == failedIdx() && (wide(origFirstOff()) + wide(failedWritten()) < 18446744073709551616 ==> wide(firstPartOff) == ite(failedIdx() != origFirstIdx(), 0, wide(origFirstOff())) + wide(failedWritten()))
 //@ func (*Service).copyECObjectRangeByParts
 //@   opt wide=80
+
+// A V2 split without a link object is walked back from its last part: the walk starts at the
+// very end of the payload, i.e. the running offset is the parent's payload size.
+//@ ghost pred parentSize() uint64
+//@ callrule c23_parent_size in (*execCtx).processV2Last
+//@   callee (*object.Object).PayloadSize, (object.Object).PayloadSize
+//@   pureeffect
+//@   defines result == parentSize()
+//@ callrule c23_v2_walk_starts_at_the_payload_end in (*execCtx).processV2Last
+//@   callee (*get.execCtx).overtakePayloadInReverse
+//@   requires [running_offset_is_the_parent_payload_size] exec.curOff == parentSize()
+//@ callrule c23_v2_last_collaborators in (*execCtx).processV2Last
+//@   callee (*get.execCtx).headChild, (*get.execCtx).resolvePayloadRange, (*get.execCtx).ctxRange, (*get.execCtx).writeCollectedHeader, (*object.Object).Parent, (object.Object).Parent, (*object.Range).*, (*zap.Logger).*
+//@   pureeffect
